@@ -296,7 +296,7 @@ var StructTypes = []reflect.Type{
 	T(CN1{}), T(CN2{}), T(NMapHolder{}),
 	T(ManyF{}), T(ManyL{}),
 	T(Node{}), T(FNode{}), T(Ping{}), T(Pong{}), T(ENode{}), T(DeepNil{}),
-	T(MapAndLists{}), T(Wrap{}), T(WrapList{}), T(PtrTime{}), T(Named{}), T(SelfAny{}), T(SelfAnyList{}), T(PtrConts{}), T(MutA{}), T(MutB{}), T(MpKeyStruct{}), T(MutGraph{}), T(NonASCII{}), T(RecConts{}), T(AmpTop{}), T(AmpN{}), T(FloatMix{}), T(Forest{}), T(CaseTwins{}), T(BaseEnt{}), T(PlainEnt{}), T(AccountEnt{}), T(PtrBaseEnt{}), T(Ents{}),
+	T(MapAndLists{}), T(Wrap{}), T(WrapList{}), T(PtrTime{}), T(Named{}), T(SelfAny{}), T(SelfAnyList{}), T(PtrConts{}), T(MutA{}), T(MutB{}), T(MpKeyStruct{}), T(MutGraph{}), T(NonASCII{}), T(RecConts{}), T(AmpTop{}), T(AmpN{}), T(FloatMix{}), T(Forest{}), T(CaseTwins{}), T(Bags{}), T(BaseEnt{}), T(PlainEnt{}), T(AccountEnt{}), T(PtrBaseEnt{}), T(Ents{}),
 }
 
 // TypeByName finds a zoo struct type.
@@ -621,6 +621,21 @@ type Ents struct {
 	A  AccountEnt
 	PB *PtrBaseEnt
 	L  []interface{}
+}
+
+// Bag / Bag2 / Bags: named slice types whose elements are interface slots, with and without a wire name of
+// their own (java.util.LinkedList on the Java side).
+type Bag []interface{}
+
+func (Bag) HessianCodecName() string { return "java.util.LinkedList" }
+
+type Bag2 []interface{}
+
+type Bags struct {
+	B  Bag
+	L  []interface{}
+	B2 Bag2
+	BB []Bag2
 }
 
 // CaseTwins: exported fields that differ only in the case of a later letter (their wire names differ too:
